@@ -17,16 +17,23 @@ X == INSTANCE Xeh
 
 LitVal == [x \in {"0", "1", "2", "3", "4", "5", "7"} |-> CASE x = "0" -> 0 [] x = "1" -> 1 [] x = "2" -> 2 [] x = "3" -> 3
                                                            [] x = "4" -> 4 [] x = "5" -> 5 [] x = "7" -> 7]
+\* string literals (texts that a meta block injects with `~)`)
+StrLit == [x \in {"\"7 foo\"", "\"1 then 2\"", "\": zz 1\"", "\"1 2\"", "\"drop\""} |->
+             CASE x = "\"7 foo\"" -> "7 foo" [] x = "\"1 then 2\"" -> "1 then 2" [] x = "\": zz 1\"" -> ": zz 1"
+               [] x = "\"1 2\"" -> "1 2" [] x = "\"drop\"" -> "drop"]
 Tok(s) == IF s \in DOMAIN LitVal THEN X!TLit(IntV(LitVal[s]), 0)
+          ELSE IF s \in DOMAIN StrLit THEN X!TLit(StrV(StrLit[s]), 0)
           ELSE IF s \in {"2d", "0xZ"} THEN X!TBad(s, 0) ELSE X!TWord(s, 0)
 Toks(ss) == [i \in 1..Len(ss) |-> Tok(ss[i])]
 
-H1  == << <<>>, <<"1", "2">>, <<":", "h", "7", ";">>, <<"5", "var", "v">> >>
+H1  == << <<>>, <<"1", "2">>, <<":", "h", "7", ";">>, <<"5", "var", "v">>,
+          <<"3", "drop", "drop", "5">>, <<"1", "2", "0", "/", "7">> >>           \* histories that failed at run time
 Pre == << <<>>, <<"1">>, <<"1", "if">>, <<"begin">>, <<"2", "0", "do">>, <<"[">>, <<":", "g">>, <<"1", "case">>,
           <<"#(">>, <<"#(", "1", "if">>, <<"7", "var", "q">>, <<":", "g", "1", ";">>, <<"[", "1", "true", "if">>,
-          <<":", "g", "2", "0", "do">> >>
+          <<":", "g", "2", "0", "do">>, <<"#(", "3", "4">>, <<"1", "#(", "3">>, <<"#(", "\"1 2\"", "~)">>, <<"1", "#(", "\"drop\"", "~)">> >>
 Bad == << <<"foo">>, <<"2d">>, <<"then">>, <<"loop">>, <<"]">>, <<";">>, <<"#)">>, <<"repeat">>,
-          <<"#(", "1", "0", "/", "#)">>, <<"#(", "drop", "#)">>, <<"var">>, <<"endcase">> >>
+          <<"#(", "1", "0", "/", "#)">>, <<"#(", "drop", "#)">>, <<"var">>, <<"endcase">>,
+          <<"#(", "\"7 foo\"", "~)">>, <<"#(", "\"1 then 2\"", "~)">>, <<"#(", "\": zz 1\"", "~)">>, <<"~)">> >>
 Trl == << <<>>, <<"2", "3">>, <<":", "g", ";">>, <<"then">> >>
 Prb == << <<<<"4">>>>, <<<<"depth">>>>, <<<<"2", "var", "x", "x">>>>, <<<<":", "f", "1", ";", "f">>>>,
           <<<<"1", "true", "if", "2", "then">>>>, <<<<"[", "1", "]">>>>, <<<<"#(", "1", "#)">>>>, <<<<"v">>>>, <<<<"g">>>>,
@@ -74,7 +81,7 @@ Judge(s) ==
        shape0 |-> Shape(s0), shape1 |-> Shape(bad), depth0 |-> Len(X!Visible(s0)), depth1 |-> Len(X!Visible(bad)),
        badout |-> bad.out,
        verdict |->
-         IF ~X!Ok(s0) THEN "skip-h1"
+         IF ~X!Ok(s0) /\ s.h <= 4 THEN "skip-h1"
          ELSE IF X!Ok(bad) THEN "skip-not-rejected"
          ELSE IF rejectedAtBuild
               THEN (IF with = without /\ Shape(bad) = Shape(s0) /\ X!Visible(bad) = X!Visible(s0) THEN "ok-build" ELSE "VIOLATION-build")
